@@ -483,10 +483,9 @@ Fixpoint rebase (reward ov : N) (l : list flotsam) : Res (list flotsam) :=
 
 Definition is_new (f : flotsam) : bool := match f_origin f with ONew _ _ _ _ _ _ _ => true | OOld _ => false end.
 
-(* InscriptionUpdater::index_inscriptions *)
-Definition index_inscriptions (height : N) (t : tx) (ents : list uentry)
-           (ranges : option (list (N * N))) (b : bst) : Res bst :=
-  let st := b_st b in
+(* first half of index_inscriptions: the floating inscriptions of the transaction (parents filtered,
+   fee set) and total_input_value *)
+Definition floating_of (st : state) (height : N) (t : tx) (ents : list uentry) : Res (list flotsam * N) :=
   let jubilant := c_jubilee cfg <=? height in
   let tov := sum_values (t_outs t) in
   do a <- inputs_loop st (t_id t) height jubilant tov (t_ins t) 0 ents (t_envs t) (mkA [] [] 0 0);
@@ -494,24 +493,33 @@ Definition index_inscriptions (height : N) (t : tx) (ents : list uentry)
   do fee <- (if existsb is_new (a_float a) then
                do d <- csub 4 (a_tiv a) tov; Ok (d / a_idc a)
              else Ok 0);
-  let floating := map (fix_new potential fee) (a_float a) in
-  let is_coinbase := match t_ins t with prev :: _ => is_null prev | [] => false end in
-  let floating := if is_coinbase then floating ++ b_flot b else floating in
-  let b := if is_coinbase
-           then mkB (b_st b) [] (b_reward b) (b_lost b) (b_blessed b) (b_cursed b) (b_unb b) (b_next b)
-                    (b_cb_ranges b) (b_lost_ranges b)
-           else b in
-  let sorted := sort_by f_offset floating in
+  Ok (map (fix_new potential fee) (a_float a), a_tiv a).
+
+Definition tx_is_coinbase (t : tx) : bool :=
+  match t_ins t with prev :: _ => is_null prev | [] => false end.
+
+Definition set_flot (b : bst) (l : list flotsam) : bst :=
+  mkB (b_st b) l (b_reward b) (b_lost b) (b_blessed b) (b_cursed b) (b_unb b) (b_next b)
+      (b_cb_ranges b) (b_lost_ranges b).
+
+(* InscriptionUpdater::index_inscriptions *)
+Definition index_inscriptions (height : N) (t : tx) (ents : list uentry)
+           (ranges : option (list (N * N))) (b : bst) : Res bst :=
+  do '(floating, tiv) <- floating_of (b_st b) height t ents;
+  let cb := tx_is_coinbase t in
+  let all := if cb then floating ++ b_flot b else floating in
+  let b0 := if cb then set_flot b [] else b in
+  let sorted := sort_by f_offset all in
   let '(locs, rest, ov) := assign (t_id t) 0 0 (t_outs t) sorted in
-  do b1 <- apply_locs height ranges locs b;
-  if is_coinbase then
+  do b1 <- apply_locs height ranges locs b0;
+  if cb then
     do b2 <- apply_lost height ranges ov rest b1;
     do d <- csub 5 (b_reward b2) ov;
     Ok (mkB (b_st b2) (b_flot b2) (b_reward b2) (b_lost b2 + d) (b_blessed b2) (b_cursed b2) (b_unb b2) (b_next b2)
             (b_cb_ranges b2) (b_lost_ranges b2))
   else
     do rest' <- rebase (b_reward b1) ov rest;
-    do d <- csub 5 (a_tiv a) ov;
+    do d <- csub 5 tiv ov;
     Ok (mkB (b_st b1) (b_flot b1 ++ rest') (b_reward b1 + d) (b_lost b1) (b_blessed b1) (b_cursed b1) (b_unb b1)
             (b_next b1) (b_cb_ranges b1) (b_lost_ranges b1)).
 
